@@ -64,6 +64,17 @@ type Case struct {
 	// Relayed: the application messages of the peer carry the Origin-Host of an end host behind it
 	// (the peer is a relay or proxy), not the Origin-Host of its CER / CEA.
 	Relayed bool `json:"relayed,omitempty"`
+	// OddApp: RAR and STR carry an application id that no dictionary declares (and that the
+	// state machine therefore does not list as supported); the commands resolve through base.
+	OddApp bool `json:"odd_app,omitempty"`
+}
+
+// baseApp is the header application id of the peer's base-protocol application requests (RAR, STR).
+func (c Case) baseApp() uint32 {
+	if c.OddApp {
+		return 7777 // an application id no dictionary declares: its commands are the base ones
+	}
+	return 0
 }
 
 func (c Case) appIdentity() []*refcodec.Node {
@@ -172,7 +183,7 @@ func (c Case) wire(cerH refcodec.Header) (msgs [][]byte, hbh []uint32, cerOK []b
 		case "DWR":
 			b = message(flagRequest, cmdDW, 0, h, e, identity()...)
 		case "RAR":
-			b = message(flagRequest, cmdRA, 0, h, e, append([]*refcodec.Node{session}, append(c.appIdentity(),
+			b = message(flagRequest, cmdRA, c.baseApp(), h, e, append([]*refcodec.Node{session}, append(c.appIdentity(),
 				str(cDestRealm, ownRealm), str(cDestHost, ownHost), u32(cAuthAppID, 4), u32(cReAuthReqType, 0))...)...)
 		case "CCR":
 			b = message(flagRequest, cmdCC, 4, h, e, append([]*refcodec.Node{session}, append(c.appIdentity(),
@@ -181,7 +192,7 @@ func (c Case) wire(cerH refcodec.Header) (msgs [][]byte, hbh []uint32, cerOK []b
 			b = message(0, cmdCC, 4, h, e, append([]*refcodec.Node{session, u32(cResultCode, 2001)}, append(c.appIdentity(),
 				u32(cAuthAppID, 4), u32(cCCRequestType, 1), u32(cCCRequestNum, 0))...)...)
 		case "STR":
-			b = message(flagRequest, cmdST, 0, h, e, append([]*refcodec.Node{session}, append(c.appIdentity(),
+			b = message(flagRequest, cmdST, c.baseApp(), h, e, append([]*refcodec.Node{session}, append(c.appIdentity(),
 				str(cDestRealm, ownRealm), u32(cAuthAppID, 4), u32(cTermCause, 1))...)...)
 		case "DWA":
 			b = message(0, cmdDW, 0, h, e, append([]*refcodec.Node{u32(cResultCode, 2001)}, identity()...)...)
@@ -668,6 +679,7 @@ func variants(role string, hist []string, idx *uint64, yield func(Case) bool) bo
 			}
 			c.WrapCtx = (h>>12)%3 == 0
 			c.Relayed = (h>>16)%3 == 0
+			c.OddApp = (h>>20)%3 == 0
 			if role == "server" {
 				c.Listener = (h>>8)%2 == 0
 			} else {
@@ -759,6 +771,7 @@ func genServer(t *rapid.T) Case {
 	genFrag(t, &c)
 	c.WrapCtx = rapid.IntRange(0, 2).Draw(t, "wrap-ctx") == 0
 	c.Relayed = rapid.IntRange(0, 2).Draw(t, "relayed") == 0
+	c.OddApp = rapid.IntRange(0, 2).Draw(t, "odd-app") == 0
 	return c
 }
 
@@ -774,6 +787,7 @@ func genClient(t *rapid.T) Case {
 	genFrag(t, &c)
 	c.WrapCtx = rapid.IntRange(0, 2).Draw(t, "wrap-ctx") == 0
 	c.Relayed = rapid.IntRange(0, 2).Draw(t, "relayed") == 0
+	c.OddApp = rapid.IntRange(0, 2).Draw(t, "odd-app") == 0
 	return c
 }
 
@@ -793,6 +807,9 @@ func classify(c Case) (bool, []string) {
 	}
 	if c.Relayed {
 		cl = append(cl, "application-messages-of-an-end-host-behind-the-peer")
+	}
+	if c.OddApp {
+		cl = append(cl, "base-commands-under-an-undeclared-application-id")
 	}
 	if len(c.Hist) > 4 {
 		cl = append(cl, "len>4")
